@@ -297,7 +297,7 @@ def worker_main(argv):
         known_hits[f0['id']] += 1
         continue
       plan0 = getattr(res, 'replay_plan', None) or plan
-      small = shrink_plan(mod, plan0, kind, budget_s=float(os.environ.get('VERIF_SHRINK_S', '45')) if f0 is None else 8.0)
+      small = shrink_plan(mod, plan0, kind, budget_s=float(os.environ.get('VERIF_SHRINK_S', '45')) if f0 is None else 3.0)
       r2 = mod.execute(small)
       if not r2.violation or r2.violation['kind'] != kind:
         small = plan0
